@@ -78,10 +78,40 @@ def check_spend(case):
     return Outcome(nt, (r["form"], f"model={code}", f"bindings={case['backend']}"))
 
 
+def check_program(case):
+    """One script over an initial stack: the library's verify_script must end in the model's state (error, or the same final stack)."""
+    from btclib.script.engine.flags import to_script_flags
+    from btclib.script.engine.script import verify_script
+
+    script = gs.program_bytes(case["script"])
+    flags = case["flags"]
+    tx = {"version": case["version"], "lock_time": case["lock_time"], "vin": [{"txid": "11" * 32, "vout": 0, "script_sig": "", "sequence": case["sequence"], "witness": []}], "vout": [{"value": 1, "spk": "51"}]}
+    spent = [{"value": 5, "spk": "51"}]
+    mstack = [bytes.fromhex(x) for x in case["stack"]]
+    stats = {}
+    try:
+        cs.eval_script(mstack, script, set(flags), cs.Checker(tx, 0, spent), "WITNESS_V0" if case["segwit"] else "BASE", {}, stats)
+        want = ("ok", [x.hex() for x in mstack])
+    except cs.ScriptErr as e:
+        want = ("error", e.code)
+    lstack = [bytes.fromhex(x) for x in case["stack"]]
+    try:
+        verify_script(script, lstack, 5, build.tx(tx, check_validity=False), 0, to_script_flags(",".join(flags) if flags else "NONE"), case["segwit"], False)
+        got = ("ok", [bytes(x).hex() for x in lstack])
+    except BTClibValueError:
+        got = ("error", None)
+    if got[0] != want[0] or (got[0] == "ok" and got[1] != want[1]):
+        fam = case["family"] + (":" + case.get("limit_kind", "") if case["family"] == "limits" else "")
+        ops = [it[1] for it in case["script"] if it[0] == "op"]
+        raise Violation(f"program:{fam}:{ops[-1] if ops and case['family'] != 'grammar' else '-'}:model={want[0] if want[0] == 'ok' else want[1]}:lib={got[0]}", f"script={script.hex()[:200]} stack={case['stack']} flags={flags} segwit={case['segwit']} model={str(want)[:200]} lib={str(got)[:200]}")
+    return Outcome(stats.get("executed", 0) >= 2, (case["family"], "ok" if want[0] == "ok" else want[1]))
+
+
 SCRIPT_FORMS = ["bare", "p2sh", "p2wsh", "p2sh_p2wsh", "tapscript"]
 SIG_FORMS = ["p2pk", "p2pkh", "p2wpkh", "p2sh_p2wpkh", "tr_key", "ms_bare", "ms_p2sh", "ms_p2wsh", "witness_unknown"]
 
 SUBCHECKS = [
+    SubCheck("final_stack", check_program, "one signature-free script over an initial stack (opcode families with boundary operands, lock times, conditionals on (non-)minimal truths, the 201-op / 520-byte / 1000-element / 10000-byte / 20-key limits from both sides, grammar scripts): the library's verify_script ends with Core's error or exactly Core's final stack; non-trivial: >=2 opcodes executed", gs.program_case, quick=9000, thorough=150000, max_buckets=8),
     SubCheck("programs", check_spend, "grammar-generated scripts in bare/P2SH/P2WSH/P2SH-P2WSH/tapscript form with optional signature checks; verdict vs Core model; non-trivial: model executed >=3 opcodes or reached a signature check", lambda: spend_case(SCRIPT_FORMS), quick=14000, thorough=250000, max_buckets=8),
     SubCheck("templates", check_spend, "P2PK, P2PKH, P2WPKH, P2SH-P2WPKH, taproot key path, k-of-n multisig (bare/P2SH/P2WSH), unknown witness programs; signatures valid/high-s/lax-DER/wrong key/wrong message/empty/truncated with every hash type class; keys compressed/uncompressed/hybrid/malformed; scriptSig and witness malleations", lambda: spend_case(SIG_FORMS), quick=5000, thorough=80000, max_buckets=8),
 ]
